@@ -41,7 +41,21 @@ for b in binders:
     ns=inner.split(':')[0].split()
     args+=ns
 ns=re.search(r'^namespace (\S+)',src,re.M).group(1)
-p=f'/verif/lean/SJ/Properties/{prop}.lean'
+import os
+target=os.environ.get('WIRE_TARGET','')   # 'Source' → SJ/Properties/CnnSource.lean (for theorems whose proofs import Properties/Cnn)
+p=f'/verif/lean/SJ/Properties/{prop}{target}.lean'
+if target and not os.path.exists(p):
+    open(p,'w').write(f'''import SJ.Properties.{prop}
+set_option linter.unusedVariables false
+/-
+{prop} — source level. The theorems of Properties/{prop}.lean composed with the source ties of DESIGN §6.3: each statement
+below is about the MEANING OF THE REGENERATED GO SOURCE (`GoSem.runFun goFuns <tree> fuel ⟨store, tape⟩`), with no
+function of the hand model in its conclusion. Proofs: SJ/Proofs/SourceLevelA.lean, SourceLevelB.lean.
+-/
+namespace SJ.Properties.{prop}
+
+end SJ.Properties.{prop}
+''')
 s=open(p).read()
 mod='SJ.Proofs.'+pf.split('/')[-1][:-5]
 if 'import '+mod+'\n' not in s:
@@ -51,7 +65,21 @@ if 'import '+mod+'\n' not in s:
     s='\n'.join(lines)
 if 'theorem '+new+' ' in s or 'theorem '+new+'\n' in s:
     print('already wired');sys.exit(0)
-doc=open(docfile).read().strip()
+if docfile=='-':
+    # the doc comment in front of the theorem in the proof file
+    pre=src[:i].rstrip()
+    if pre.endswith('-/'):
+        a=pre.rfind('/--')
+        doc=pre[a+3:-2].strip()
+        # drop an `open … in` line between comment and theorem if any
+    else:
+        # maybe `open X in` line precedes; look further back
+        lines=pre.split('\n')
+        while lines and lines[-1].startswith('open '): lines.pop()
+        pre='\n'.join(lines).rstrip()
+        a=pre.rfind('/--'); doc=pre[a+3:-2].strip() if pre.endswith('-/') else 'Source-level corollary.'
+else:
+    doc=open(docfile).read().strip()
 end=f"\nend SJ.Properties.{prop}"
 k=s.rfind(end)
 add=f"\nopen {opens} in\n/-- {doc} -/\ntheorem {new}{stmt} :=\n  {ns}.{thm} {' '.join(args)}\n"
